@@ -25,8 +25,8 @@ from ..explorer import Step
 
 PROPERTY = "C03"
 ALPHABET = ("send_data L in {1, W, W+1} x pad {None, 1 | 0, 255}; end_stream; WINDOW_UPDATE sid/0 x {1, to 2^31-1, past 2^31-1}; "
-            "SETTINGS INITIAL_WINDOW_SIZE in {0, 5, 65536, 2^31-1}; open next stream; server: push_stream (reserved stream, windows exist), response headers on it; frame limit 16384 or 2^24-1")
-BOUNDS = {"quick": "depth 6, <=2 streams, both roles, two frame-limit configurations", "thorough": "depth 8 (or the per-harness time budget, reported), <=3 streams, pads {None,0,1,255}"}
+            "SETTINGS INITIAL_WINDOW_SIZE in {0, 5, 65536, 2^31-1}; open next stream; server: push_stream (reserved stream, windows exist), response headers on it; frame limit 16384 or 2^24-1; start states: handshaken, and (server) upgraded with INITIAL_WINDOW_SIZE 100000 in the HTTP2-Settings header")
+BOUNDS = {"quick": "depth 6 (4 from the upgraded start state), <=2 streams, both roles, two frame-limit configurations", "thorough": "depth 8 (or the per-harness time budget, reported), <=3 streams, pads {None,0,1,255}"}
 MAXW = 2 ** 31 - 1
 sb = H.stateless_block
 
@@ -38,11 +38,12 @@ class S:
 class Spec:
     def __init__(self, key):
         _, role, big, tier = key
+        self.upgraded = role == "server-upgraded"
         self.client = role == "client"
         self.big = big
         self.tier = tier
         self.name = "c03-%s-%s-%s" % (role, "F2^24" if big else "F16384", tier)
-        self.max_depth = 6 if tier == "quick" else 8
+        self.max_depth = (4 if self.upgraded else 6) if tier == "quick" else (6 if self.upgraded else 8)
         self.max_streams = 2 if tier == "quick" else 3
         # quick: the two frame-limit configurations split the padding values between them
         self.pads = ([None, 1] if big else [None, 0, 255]) if tier == "quick" else [None, 0, 1, 255]
@@ -61,7 +62,27 @@ class Spec:
         st.resv = set()      # promised streams (server role) whose response headers were not sent yet: windows exist, no DATA yet
         st.npush = 0
         st.dead = False
-        return [("start", st)]
+        out = [("start", st)]
+        if self.upgraded:
+            out = []
+            # h2c-upgraded servers whose client announced INITIAL_WINDOW_SIZE below / above the default in the HTTP2-Settings
+            # header (and repeats it in its first SETTINGS frame): the setting moves stream windows - stream 1 exists already -
+            # and never the connection window
+            import base64
+            for iws in (100000,):
+                st2 = S()
+                st2.h = H.Solo(False, handshake=False)
+                pairs = [(wire.S_INITIAL_WINDOW_SIZE, iws)]
+                st2.h.conn.initiate_upgrade_connection(base64.urlsafe_b64encode(wire.settings(pairs).payload))
+                o = st2.h.rx([wire.settings(pairs), wire.settings([], ack=True)])
+                assert o.kind == "ok", o.brief()
+                st2.h.m.upgrade()
+                o = st2.h.api("send_headers", 1, H.ni(H.RESP))
+                assert o.kind == "ok", o.brief()
+                st2.F, st2.Wc, st2.iws, st2.Ws, st2.done, st2.nstreams = 16384, 65535, iws, {1: iws}, set(), 1
+                st2.resv, st2.npush, st2.dead = set(), 0, False
+                out.append(("upgraded-iws%d" % iws, st2))
+        return out
 
     def fingerprint(self, st):
         return fingerprint(st.h.conn, st.Wc, st.iws, tuple(sorted(st.Ws.items())), tuple(sorted(st.done)),
@@ -310,3 +331,4 @@ def run(ctx):
     for role in ("server", "client"):
         for big in (False, True):
             ctx.explore(("c03", role, big, ctx.tier), time_budget=None if ctx.tier == "quick" else 420)
+    ctx.explore(("c03", "server-upgraded", False, ctx.tier), time_budget=None if ctx.tier == "quick" else 200)
